@@ -11,7 +11,8 @@ dropout, shuffles a split and trains for several steps"):
   rand / randn / normal / randint; constructors Linear, Conv1d, Conv2d, BatchNorm1d, BatchNorm2d; every nn.init.*_ ;
   Dropout in training mode; split_dataset(shuffle=True) (with and without validation split); a few training steps with SGD
   (momentum), Adam and AdamW on an MLP with BatchNorm1d + Dropout; a diamond graph (a node consumed by several ops);
-  Module.parameters() with a shared parameter; forward/backward of a conv net.
+  Module.parameters() with a shared parameter; forward/backward of a conv net; `ctor_part`: construction of EVERY layer class
+  of nn/layers.py under every boolean / None option combination with junk of the buffers' sizes in the heap (see ctor_part).
 The body is executed twice in the process (second time after re-seeding) -> prefixes "run1/", "run2/".
 `--reps N`: a fixed-data (no randomness) forward/backward repeated N times -> "fixed/<i>/..." must all be equal.
 `--perturb K`: allocate K dummy objects of assorted sizes (freeing every other one) before every section, so that object
@@ -351,6 +352,104 @@ def gaps(rec, pre, i):
         rec.put("chk/want/gaps/fold_k2_s3/uncovered_rows", np.zeros((1, 1, 2, 8), dtype=np.float32))
 
 
+FILLS = [float("nan"), 1e30, -3.25, 7.0]
+JUNK_SHAPES = [(3,), (4,), (1,), (3, 4), (1, 4), (3, 2, 3), (3, 2, 3, 3), (2,), (8,)]
+
+
+def _x(shape, mul=7, mod=11):
+    n = int(np.prod(shape))
+    return sg.Tensor((((np.arange(n, dtype=np.float32) * mul) % mod) - mod // 2).reshape(shape) / 4.0)
+
+
+def ctor_configs():
+    """(name, factory, fixed input) for EVERY layer class of synapgrad.nn.layers under every boolean / None option combination"""
+    from synapgrad.nn import layers as L
+    cfg = []
+    for b in (True, False):
+        cfg.append(("Linear(bias=%s)" % b, lambda b=b: L.Linear(4, 3, bias=b), (5, 4)))
+        cfg.append(("Neuron(bias=%s)" % b, lambda b=b: L.Neuron(4, bias=b), (5, 4)))
+        for pad in (0, "same"):
+            cfg.append(("Conv1d(bias=%s,padding=%r)" % (b, pad), lambda b=b, pad=pad: L.Conv1d(2, 3, 3, padding=pad, bias=b), (2, 2, 8)))
+            cfg.append(("Conv2d(bias=%s,padding=%r)" % (b, pad), lambda b=b, pad=pad: L.Conv2d(2, 3, 3, padding=pad, bias=b), (1, 2, 6, 6)))
+    for cls, shp in (("BatchNorm1d", (5, 3)), ("BatchNorm2d", (2, 3, 4, 4))):
+        for aff in (True, False):
+            for trk in (True, False):
+                for mom in (0.1, None):
+                    cfg.append(("%s(affine=%s,track=%s,momentum=%s)" % (cls, aff, trk, mom),
+                                lambda cls=cls, aff=aff, trk=trk, mom=mom: getattr(L, cls)(3, momentum=mom, affine=aff, track_running_stats=trk), shp))
+    cfg.append(("BatchNorm1d(float64)", lambda: L.BatchNorm1d(3, dtype=np.float64), (5, 3)))
+    for pp in (0.0, 0.5, 1.0):
+        cfg.append(("Dropout(p=%s)" % pp, lambda pp=pp: L.Dropout(pp), (4, 5)))
+    cfg.append(("Flatten()", lambda: L.Flatten(), (2, 3, 4)))
+    cfg.append(("Flatten(0,-1)", lambda: L.Flatten(0, -1), (2, 3, 4)))
+    for st in (1, 2):
+        for pad in (0, 1):
+            cfg.append(("Unfold(k=2,s=%d,p=%d)" % (st, pad), lambda st=st, pad=pad: L.Unfold(2, stride=st, padding=pad), (1, 2, 4, 4)))
+    cfg.append(("Fold((4,4),k=2,s=2)", lambda: L.Fold((4, 4), 2, stride=2), (1, 8, 4)))
+    cfg.append(("Fold((4,4),k=2,s=3)", lambda: L.Fold((4, 4), 2, stride=3, padding=1), (1, 8, 4)))
+    for cls, shp in (("MaxPool1d", (2, 2, 8)), ("AvgPool1d", (2, 2, 8)), ("MaxPool2d", (1, 2, 6, 6)), ("AvgPool2d", (1, 2, 6, 6))):
+        for st in (None, 1, 3):
+            for pad in (0, 1):
+                cfg.append(("%s(k=2,s=%s,p=%d)" % (cls, st, pad), lambda cls=cls, st=st, pad=pad: getattr(L, cls)(2, stride=st, padding=pad), shp))
+    covered = {c[0].split("(")[0] for c in cfg} | {"BatchNorm"}
+    missing = sorted(n for n, o in vars(L).items() if isinstance(o, type) and issubclass(o, nn.Module) and o.__module__ == L.__name__ and n not in covered)
+    return cfg, missing
+
+
+def tensor_attrs(layer):
+    """every Tensor-valued attribute (parameters and buffers), discovered generically"""
+    out = {}
+    for k, v in list(vars(layer).items()) + list(getattr(layer, "_parameters", {}).items()):
+        if isinstance(v, sg.Tensor):
+            out[k] = v
+    return dict(sorted(out.items()))
+
+
+def ctor_part(rec, pre, seed, round_):
+    """construction of every layer class under every option combination, with junk (NaN / 1e30 / -3.25 / 7, a different fill per
+    run, repetition and configuration) of the buffers' sizes allocated and freed right before each construction; every
+    Tensor-valued attribute is hashed right after construction and again after two training forwards + one eval forward on fixed
+    data.  synapgrad.empty's own (documented uninitialised) result is never hashed.  Direct statements: everything is finite;
+    a tracked BatchNorm starts with running_mean == 0 and running_var == 1; an affine one with weight == 1 and bias == 0."""
+    sg.manual_seed(seed)
+    cfgs, missing = ctor_configs()
+    rec.put(pre + "ctorp/unconfigured_layer_classes", np.array([len(missing)], dtype=np.int64))
+    rec.put("chk/got/ctor/%sall_layer_classes_configured" % pre, np.array([len(missing)], dtype=np.int64))
+    rec.put("chk/want/ctor/%sall_layer_classes_configured" % pre, np.array([0], dtype=np.int64))
+    for ci, (name, make, shape) in enumerate(cfgs):
+        fill = FILLS[(ci + round_) % 4]
+        junk(JUNK_SHAPES, fill)
+        layer = make()
+        attrs = tensor_attrs(layer)
+        fin = True
+        for a, t in attrs.items():
+            rec.put(pre + "ctorp/%s/new/%s" % (name, a), t, name.startswith(("Linear", "Neuron", "Conv")) and a == "weight")
+            fin = fin and bool(np.isfinite(t.data).all())
+            want = {"running_mean": 0.0, "running_var": 1.0}.get(a)
+            if want is None and name.startswith("BatchNorm"):
+                want = {"weight": 1.0, "bias": 0.0}.get(a)
+            if want is not None and name.startswith("BatchNorm"):
+                rec.put("chk/got/ctor/%s%s/%s_right_after_construction" % (pre, name, a), t)
+                rec.put("chk/want/ctor/%s%s/%s_right_after_construction" % (pre, name, a), np.full(t.data.shape, want, dtype=t.data.dtype))
+        layer.train()
+        x = _x(shape)
+        junk(JUNK_SHAPES, fill)
+        o1 = layer(x)
+        o2 = layer(_x(shape, 5, 13))
+        layer.eval()
+        o3 = layer(x)
+        rnd = name.startswith(("Linear", "Neuron", "Conv")) or name == "Dropout(p=0.5)"
+        rec.put(pre + "ctorp/%s/out/train1" % name, o1, rnd); rec.put(pre + "ctorp/%s/out/train2" % name, o2, rnd)
+        rec.put(pre + "ctorp/%s/out/eval" % name, o3, name.startswith(("Linear", "Neuron", "Conv")))
+        for o in (o1, o2, o3):
+            fin = fin and bool(np.isfinite(o.data).all())
+        for a, t in tensor_attrs(layer).items():
+            rec.put(pre + "ctorp/%s/after/%s" % (name, a), t, name.startswith(("Linear", "Neuron", "Conv")) and a == "weight")
+            fin = fin and bool(np.isfinite(t.data).all())
+        rec.put("chk/got/ctor/%s%s/all_finite" % (pre, name), np.array([fin]))
+        rec.put("chk/want/ctor/%s%s/all_finite" % (pre, name), np.array([True]))
+
+
 def catalog_part(rec, pre, seed, k, limit):
     """ops of lib/opcatalog.py on operands drawn from the seeded global generators, forward + backward"""
     if ROOT not in sys.path:
@@ -398,8 +497,10 @@ def run(seed, k=0, reps=0, catalog=-1):
     objs = prebuild()
     body(rec, "run1/", seed, k)
     prebuilt_part(rec, "run1/", seed, objs)
+    ctor_part(rec, "run1/", seed, 0)
     body(rec, "run2/", seed, k)
     prebuilt_part(rec, "run2/", seed, objs)
+    ctor_part(rec, "run2/", seed, 1)
     labels_part(rec)
     seedcheck(rec, seed)
     for i in range(reps):
